@@ -78,7 +78,7 @@ structure InvMem (imm : List Nat) (curOpen curHdr : Bool) (cur nextMem : Nat)
 
 def KOut.fileOk (Fs : Nat → Option Inode) (o : KOut) : Prop :=
   (o.stage = 1 → ∃ f, Fs o.id = some f ∧ f.chunks = []) ∧
-  (o.stage = 2 → ∃ f, Fs o.id = some f ∧ f.chunks = [.table o.ents])
+  (2 ≤ o.stage → ∃ f, Fs o.id = some f ∧ f.chunks = [.table o.ents])
 
 /-- the `.sst` files: tables of the MANIFEST, the flusher's table, the compaction outputs -/
 structure InvSst (R : ViewRel) (tset : List (Nat × Nat)) (tcont : List (Nat × List CEnt))
